@@ -513,6 +513,13 @@ func TestC05Loop(t *testing.T) {
 					// the current task" is not expressible; the results of the handler are what is examined there
 					kinds = kinds[:3]
 				}
+				if c.Index%3 != 1 && rng.IntN(5) == 0 {
+					// the handled task is taken out of the queue while its handler runs (unique ids only); where
+					// AfterTasks of a task that is gone belong is not stated, so such a step returns none
+					st.Ext = append(st.Ext, c5op{Kind: "RemoveCur"})
+					st.After = 0
+					continue
+				}
 				st.Ext = append(st.Ext, c5op{Kind: kinds[rng.IntN(len(kinds))]})
 			}
 			if rng.IntN(6) == 0 {
@@ -610,6 +617,15 @@ func TestC05Loop(t *testing.T) {
 							q.RemoveLast()
 							ref = ref[:len(ref)-1]
 						}
+					case "RemoveCur":
+						for i, it := range ref {
+							if it.uid == cur {
+								q.Remove(tk.GetId())
+								ref = removeAt(ref, i)
+								res.Count("handled_task_removed_during_handler", 1)
+								break
+							}
+						}
 					case "AddAfterCur", "AddBeforeCur":
 						pos := -1
 						for i, it := range ref {
@@ -664,6 +680,11 @@ func TestC05Loop(t *testing.T) {
 						nref = append(append([]c5item{}, heads...), nref...)
 						nref = append(nref, tails...)
 						ref = nref
+					} else {
+						// the handled task left the queue during the handler (RemoveCur; no AfterTasks then):
+						// nothing else is removed on its behalf, head and tail insertions are ordinary
+						nref := append(append([]c5item{}, heads...), ref...)
+						ref = append(nref, tails...)
 					}
 				}
 				lastStatus = st.Status
